@@ -128,19 +128,38 @@ def main_paths(facts):
     w = Walker(facts, name_results=True, inline='all')
     w.opaque = {'cli_main'}
     paths = w.run(fn.body, PathState())
-    return fn, [p for p in paths if feasible(p)]
+    return fn, [p for p in paths if feasible(p, facts.consts)]
 
 
-def feasible(p):
-    """Two loops over the structurally identical range(...) value run the same number of times: a path on which one ran zero
-    times and the other at least once does not exist."""
+def range_trips(it, sym):
+    """Trip count of a range(...) value as a polynomial (None when it is not one): stop, or (stop - start) / step when exact."""
+    args = it[2]
+    if it[3] or not 1 <= len(args) <= 3:
+        return None
+    try:
+        if len(args) == 1:
+            return sym.poly(args[0])
+        start, stop = sym.poly(args[0]), sym.poly(args[1])
+        step = sym.poly(args[2]) if len(args) == 3 else Poly.const(1)
+        return divide(stop - start, step)
+    except Undecided:
+        return None
+
+
+def feasible(p, consts=None):
+    """Two range(...) loops with the same trip count (the structurally identical range value, or the same polynomial
+    (stop - start) / step) run the same number of times: a path on which one ran zero times and the other at least once does
+    not exist."""
     trips = {}
+    sym = Sym(consts or {})
     for ev in p.events:
         if ev[0] in ('loop', 'loop0'):
             it = strip(ev[1])
             if it[0] == 'call' and it[1] == 'range':
+                n = range_trips(it, sym)
+                key = it if n is None else repr(n)
                 got = ev[0] == 'loop'
-                if trips.setdefault(it, got) != got:
+                if trips.setdefault(key, got) != got:
                     return False
     return True
 
@@ -427,6 +446,7 @@ class Sym:
     def __init__(self, consts, page_vars=(), raw=None):
         self.consts = consts
         self.page_vars = set(page_vars)     # havoc symbols standing for the page index
+        self.page_values = {}               # havoc symbol of a range() loop variable -> START + PAGE*STEP
         self.raw = raw                      # the `res` value read from the file: len(raw) is LEN
 
     def length(self, v):
@@ -484,6 +504,8 @@ class Sym:
         return False
 
     def poly(self, v):
+        if v in self.page_values:
+            return self.page_values[v]
         if v in self.page_vars:
             return Poly.sym(PAGE)
         if is_const(v):
@@ -598,16 +620,28 @@ class PathModel:
         self.sends = [r for r in self.reqs if r.kind in DNLOAD_KINDS or r.kind in ('CLR', 'DNLOAD?')]
 
     def page_loop(self, req):
-        """(LOOP event idx, For node, iterable, page havoc symbol) of the innermost enclosing `for PAGE in range(N)` loop."""
+        """(LOOP event idx, For node, iterable, loop-variable havoc symbol) of the innermost enclosing `for V in range(...)` loop."""
         for idx, node, it in reversed(self.loops_of.get(req.idx, [])):
             its = strip(it)
-            if its[0] == 'call' and its[1] == 'range' and isinstance(node.target, ast.Name):
+            if its[0] == 'call' and its[1] == 'range' and isinstance(node.target, ast.Name) and 1 <= len(its[2]) <= 3 and not its[3]:
                 return idx, node, its, ('havoc', node.target.id, 'loop@{}'.format(node.lineno))
         return None
 
     def sym_for(self, req, raw=None):
+        """Polynomial view for a request: the variable of the enclosing range() loop stands for START + PAGE*STEP."""
         pl = self.page_loop(req)
-        return Sym(self.consts, [pl[3]] if pl else [], raw)
+        sym = Sym(self.consts, [], raw)
+        if pl:
+            args = pl[2][2]
+            start = sym.poly(args[0]) if len(args) >= 2 else Poly.const(0)
+            step = sym.poly(args[2]) if len(args) == 3 else Poly.const(1)
+            sym.page_values[pl[3]] = start + Poly.sym(PAGE) * step
+        return sym
+
+    def trip_count(self, rng, sym):
+        """Number of iterations N of range(...) as a polynomial: stop for range(stop), (stop - start) / step when that division is
+        exact as polynomials (start + N*step == stop); None otherwise."""
+        return range_trips(rng, sym)
 
     # the data download fixes S, FW and the raw image
     def data_shape(self, req):
@@ -616,6 +650,9 @@ class PathModel:
         while code[0] == 'call' and code[1] in ('bytes', 'bytearray', 'memoryview') and len(code[2]) == 1:
             code = strip(code[2][0])
         if code[0] != 'slice':
+            if code[0] == 'havoc' or code[0] in ('unpack', 'callv', 'call', 'mcall', 'sub'):
+                # a chunk that comes out of a loop over something else (a generator of pages, a pre-split list): not followed
+                raise Undecided('the chunk sent by the data download ({}) is not followed back to the firmware buffer'.format(show(code)[:60]))
             return 'the payload {} is not a slice of the firmware buffer'.format(show(code)[:60])
         if code[4] != C(None):
             return 'the slice has a step'
